@@ -17,7 +17,7 @@ from liquid import Environment
 from liquid.exceptions import LiquidError
 from liquid.undefined import is_undefined
 
-from vf.hx import excluded, finish
+from vf.hx import cint, excluded, finish, untraced
 
 PROPERTY = "C25"
 ENV = Environment()
@@ -1447,6 +1447,47 @@ def c25_render_array(n: int, a: int, b: int, c: int, d: int) -> bool:
     return finish(out == exp)
 
 
+# ---- integers written as strings (signed, padded, with blanks) behave exactly like the integer, in either position, ----
+# for every math filter: same rendered text (so also the same int/float kind of result)
+IS_POOL = ["7", "-7", "+7", " 7", "7 ", "-0", "007", "-10", "12345678901234567890123", "-9007199254740993", "1_0", " -3 "]
+IS_OTHER = [2, -3, "2", "-3", 2.5, 0]
+IS_FILTERS = ["plus", "minus", "times", "divided_by", "modulo", "abs", "at_least", "at_most", "ceil", "floor", "round"]
+_IS_ENV = Environment()
+_IS_T = {}
+for _f in IS_FILTERS:
+    _IS_T[_f] = (_IS_ENV.from_string("{{ a | %s: b }}|{{ b | %s: a }}" % (_f, _f)) if _f not in ("abs", "ceil", "floor", "round")
+                 else _IS_ENV.from_string("{{ a | %s }}|{{ b | %s }}" % (_f, _f)))
+
+
+def int_string_case(fi, si, bi):
+    t = _IS_T[IS_FILTERS[fi]]
+    s = IS_POOL[si]
+    try:
+        as_text = t.render(a=s, b=IS_OTHER[bi])
+    except LiquidError as e:
+        as_text = "ERR:" + type(e).__name__
+    try:
+        as_int = t.render(a=int(s), b=IS_OTHER[bi])
+    except LiquidError as e:
+        as_int = "ERR:" + type(e).__name__
+    return as_text, as_int
+
+
+def c25_int_string_pool(fi: int, si: int, bi: int) -> bool:
+    """
+    pre: 0 <= fi <= 10 and 0 <= si <= 11 and 0 <= bi <= 5
+    post: _
+    """
+    if excluded("c25_int_string_pool", locals()):
+        return True
+    fi, si, bi = cint(fi, 0, 10), cint(si, 0, 11), cint(bi, 0, 5)
+    r = untraced(lambda: int_string_case(fi, si, bi))
+    return finish(r[0] == r[1])
+
+
+_DETAIL_INT_STRING = lambda fi, si, bi: {"filter": IS_FILTERS[fi], "string": IS_POOL[si], "other operand": IS_OTHER[bi],
+                                                   "rendered with the string / with the int": int_string_case(fi, si, bi)}
+
 CONDITIONS = [
     {"fn": "c25_size_str", "quick": 30, "thorough": 60},
     {"fn": "c25_size_sized", "quick": 30, "thorough": 60},
@@ -1510,6 +1551,7 @@ CONDITIONS = [
     {"fn": "c25_divided_by_small", "quick": None, "thorough": 180},
     {"fn": "c25_modulo", "quick": 40, "thorough": 180},
     {"fn": "c25_numeric_string_input", "quick": 40, "thorough": 120},
+    {"fn": "c25_int_string_pool", "quick": 60, "thorough": 120, "sel_only": True},
     {"fn": "c25_numeric_string_arg", "quick": None, "thorough": 120},
     {"fn": "c25_numeric_strings_both", "quick": None, "thorough": 180},
     {"fn": "c25_numeric_strings_mul", "quick": None, "thorough": 240},
@@ -1531,6 +1573,7 @@ def _d_truncate(s, num, end):
 
 
 DETAIL = {
+    "c25_int_string_pool": _DETAIL_INT_STRING,
     "c25_truncate_exact": lambda s, end: _d_truncate(s, len(s), end),
     "c25_truncate_tiny": _d_truncate,
     "c25_truncate_longer": _d_truncate,
